@@ -374,3 +374,49 @@ pub fn run_stream_universe(srv: &Server, frames: &[Frame], seg: &[usize], u: usi
         "r": rs, "resp": hex(&masked), "store": snapshot_json(srv), "nreads": reads.len(), "maxcap": maxcap})).unwrap();
     1
 }
+
+/// One universe of a (possibly truncated) byte stream: deliver the chunks, then - if the whole stream was
+/// sent - a sentinel noop, else half-close; collect the answers until EOF / sentinel / silence.
+pub fn run_cut_universe(srv: &Server, bytes: &[u8], seg: &[usize], u: usize, complete: bool, out: &mut dyn Write) -> usize {
+    reset_store(srv);
+    HOOK_LOG.lock().unwrap().clear();
+    let mut c = match Client::connect(srv.port) {
+        Ok(c) => c,
+        Err(_) => return 0,
+    };
+    let mut delivered = true;
+    for ch in cut(bytes, seg) {
+        if !c.send_chunk(&ch, Duration::from_millis(60)) {
+            delivered = false;
+        }
+    }
+    if complete {
+        let s = Frame::consistent(0x0a, &[], &[], &[], SENTINEL, 0);
+        let _ = c.s.write_all(&s.bytes());
+    } else {
+        let _ = c.s.shutdown(Shutdown::Write);
+    }
+    let (resp, how) = c.read_until(Duration::from_millis(1500), &|b| complete && has_opaque(b, SENTINEL));
+    let lport = c.port;
+    let _ = c.s.shutdown(Shutdown::Both);
+    if how != "done" {
+        std::thread::sleep(Duration::from_millis(5));
+    }
+    let maxcap: u64 = hook_snapshot().iter().filter(|e| e.site == "conn.read" && e.nums[0] == lport as u64).map(|e| e.nums[3]).max().unwrap_or(0);
+    let nreads = hook_snapshot().iter().filter(|e| e.site == "conn.read" && e.nums[0] == lport as u64).count();
+    let rs = parse_responses(&resp);
+    let mut masked = resp.clone();
+    let mut i = 0;
+    while i + 24 <= masked.len() {
+        let bl = u32::from_be_bytes([masked[i + 8], masked[i + 9], masked[i + 10], masked[i + 11]]) as usize;
+        let e = std::cmp::min(i + 24, masked.len());
+        for b in masked[i + 16..e].iter_mut() {
+            *b = 0;
+        }
+        i += 24 + bl;
+    }
+    let segdesc = if seg.len() > 8 { format!("{} chunks, first {:?}", seg.len(), &seg[..4]) } else { format!("{:?}", seg) };
+    writeln!(out, "{}", json!({"e": "trun", "u": u, "seg": segdesc, "how": how, "delivered": delivered, "complete": complete,
+        "r": rs, "resp": hex(&masked), "store": snapshot_json(srv), "nreads": nreads, "maxcap": maxcap})).unwrap();
+    1
+}
